@@ -86,6 +86,37 @@ def render(conn, s, r, shape):
             parts.append('throw("boom %s%d")' % (conn, r))
         return {"code": " ".join(parts), "out": out, "err": err, "end": end if parts else "none",
                 "value": str(100000 + r) if end == "value" else None, "order": order}
+    if k == "big":
+        # LARGE output right before the eval ends: one print of unit * 2^dbl bytes (70 .. 400 KiB) and/or many
+        # medium prints in a tight loop, on stdout and/or stderr; everything must arrive before `done`
+        unit = ("%s%s.%d." % (conn, s, r) + "0123456789abcdefghij")[:shape.get("unit", 20)]
+        blk, j, m = "b%d" % r, "j%d" % r, "m%d" % r
+        t0, t1 = tag(conn, s, r, 0), tag(conn, s, r, 1)
+        parts = ['let %s = "%s" let %s = 0 while %s < %d { %s = %s ^ %s %s += 1 }' % (
+            blk, unit, j, j, shape["dbl"], blk, blk, blk, j), 'println("%s")' % t0]
+        big = unit * (1 << shape["dbl"])
+        out, err = t0 + "\n", ""
+        if shape.get("spin_before"):
+            parts.append("let v%d = 0 while v%d < %d { v%d += 1 }" % (r, r, shape["spin_before"], r))
+        reps = shape.get("reps", 1)
+        for st_ in shape["streams"]:
+            fn = "println" if st_ == "o" else "eprintln"
+            if reps == 1:
+                parts.append("%s(%s)" % (fn, blk))
+            else:
+                parts.append("let %s%s = 0 while %s%s < %d { %s(%s) %s%s += 1 }" % (m, st_, m, st_, reps, fn, blk, m, st_))
+            if st_ == "o":
+                out += (big + "\n") * reps
+            else:
+                err += (big + "\n") * reps
+        if shape.get("spin_after"):
+            parts.append("let u%d = 0 while u%d < %d { u%d += 1 }" % (r, r, shape["spin_after"], r))
+        parts.append('println("%s")' % t1)
+        out += t1 + "\n"
+        end = shape.get("end", "value")
+        parts.append(str(100000 + r) if end == "value" else 'throw("boom %s%d")' % (conn, r))
+        return {"code": " ".join(parts), "out": out, "err": err, "end": end,
+                "value": str(100000 + r) if end == "value" else None, "err_exact": end == "value"}
     if k == "readcnt":
         return {"code": "q%d" % shape["of"], "out": "", "err": "", "end": "any", "value": None}
     if k == "long":
@@ -172,6 +203,22 @@ def _interrupt_chatty(g, s):
     g.steps.append(["intr", g.rid(), s])
     g.dirty[s] = True
     g.readcnt(s, r)
+
+
+def _big_shape(rng):
+    x = rng.random()
+    if x < 0.55:        # one print of 70 .. 400 KiB
+        sh = {"k": "big", "dbl": rng.choice([12, 13, 13, 14]), "unit": rng.choice([17, 18, 20, 22, 25]), "reps": 1}
+    else:               # many medium prints (2.5 .. 10 KiB each, 100 .. 600 KiB in total) in a tight loop
+        sh = {"k": "big", "dbl": rng.choice([7, 8, 9]), "unit": 20, "reps": rng.choice([40, 60])}
+    sh["streams"] = rng.choice([["o"], ["o"], ["e"], ["o", "e"], ["e", "o"]])
+    if rng.random() < 0.4:
+        sh["spin_before"] = int(rng.choice([40, 100, 160]) * ITERS_PER_MS)
+    if rng.random() < 0.25:
+        sh["spin_after"] = int(rng.choice([5, 60, 150, 260]) * ITERS_PER_MS)
+    if rng.random() < 0.15:
+        sh["end"] = "throw"
+    return sh
 
 
 PANIC_SOURCES = [
@@ -295,6 +342,8 @@ def _c30_step(g):
     x = rng.random()
     if x < 0.05 and g.open:
         _interrupt_chatty(g, rng.choice(g.open))
+    elif x < 0.10 and g.open:
+        g.eval_step(rng.choice(g.open), _big_shape(rng), load=(None,) if rng.random() < 0.2 else None)
     elif x < 0.40:
         s = g.some_session(0.06)
         g.eval_step(s, _print_shape(rng))
@@ -930,6 +979,10 @@ def judge(case, obs):
             out = "".join(msgs[i]["out"] for i in idxs if isinstance(msgs[i].get("out"), str))
             err = "".join(msgs[i]["err"] for i in idxs if isinstance(msgs[i].get("err"), str))
             err_tagged = "".join(TAG_RE.findall(err))
+            if "err_exact" in rd and "interrupted" not in st:
+                # untagged bulk text: on success nothing but the program's own text is expected on err; when the
+                # eval fails, Garden's error text follows the program's text (final drain, then the error message)
+                err_tagged = err if rd["err_exact"] else err[:len(rd["err"])]
             values = [msgs[i]["value"] for i in idxs if "value" in msgs[i]]
             interrupted = "interrupted" in st
             oc = "interrupted" if interrupted else "unknown-session" if "unknown-session" in st else \
@@ -963,10 +1016,12 @@ def judge(case, obs):
                 ok_out = out == exp_out
                 ok_err = err_tagged == exp_err
             if not ok_out:
-                v30.append((_conserve_sig("out", exp_out, out, interrupted), dict(base, expected=exp_out[-400:], got=out[-400:])))
+                v30.append((_conserve_sig("out", exp_out, out, interrupted),
+                            dict(base, expected=exp_out[-400:], got=out[-400:], expected_bytes=len(exp_out), got_bytes=len(out))))
             if not ok_err:
                 v30.append((_conserve_sig("err", exp_err, err_tagged, interrupted),
-                            dict(base, expected=exp_err[-400:], got=err[-400:])))
+                            dict(base, expected=exp_err[-400:], got=err[-400:], expected_bytes=len(exp_err),
+                                 got_bytes=len(err_tagged))))
             # program-order causality across the two streams (matters for evals that were cut short): if a
             # line arrived, every line the program printed before it - on either stream - must have arrived
             order = rd.get("order")
@@ -1073,7 +1128,7 @@ def judge(case, obs):
         for w, info in co["reqs"].items():
             sh = info.get("shape")
             if info["kind"] in ("eval", "load") and sh:
-                if sh["k"] in ("long", "biglong", "call", "readcnt") or \
+                if sh["k"] in ("long", "biglong", "call", "readcnt", "big") or \
                         (sh["k"] == "print" and render(cname, info["s"], info["r"], sh)["code"].strip()):
                     has_exprs.add(w)
         for m in co["msgs"]:
